@@ -46,3 +46,6 @@ theories/Erase.vos theories/Erase.vok theories/Erase.required_vos: theories/Eras
 theories/Modular.vo theories/Modular.glob theories/Modular.v.beautified theories/Modular.required_vo: theories/Modular.v theories/Base.vo
 theories/Modular.vio: theories/Modular.v theories/Base.vio
 theories/Modular.vos theories/Modular.vok theories/Modular.required_vos: theories/Modular.v theories/Base.vos
+theories/FromMatAlg.vo theories/FromMatAlg.glob theories/FromMatAlg.v.beautified theories/FromMatAlg.required_vo: theories/FromMatAlg.v 
+theories/FromMatAlg.vio: theories/FromMatAlg.v 
+theories/FromMatAlg.vos theories/FromMatAlg.vok theories/FromMatAlg.required_vos: theories/FromMatAlg.v 
